@@ -7,13 +7,14 @@ executor; per path z3 decides that the answer equals the mathematical definition
 over the table.  Path coverage is proven by z3, so the claim is "for every table of this
 shape".
 """
+import copy
 import itertools
 import os
 import random
 
 import z3
 
-from vlib import circ, circgen, forkexec, symeval, xh
+from vlib import circ, circgen, forkexec, refsem, symeval, xh
 from checks.common import REPLAY_PRELUDE
 
 LEVEL = "other"
@@ -298,6 +299,104 @@ def shape_unit(p, item, tier, seed):
             s.pop()
 
 
+
+# ---------------------------------------------------------------- circuits of arbitrary structure
+def ref_table(c):
+    """Truth table of a concrete circuit by the reference semantics (replays)."""
+    net = circ.netlist_of(c)
+    n = len(c.inputs)
+    rows = []
+    for j in range(1 << n):
+        vals = refsem.denote(net, {l: z3.BoolVal(b) for l, b in zip(c.inputs, bits_of(j, n))})
+        rows.append([z3.is_true(z3.simplify(vals[o])) for o in c.outputs])
+    return [list(col) for col in zip(*rows)] if rows and c.outputs else []
+
+
+def struct_unit(p, item, tier, seed):
+    """Circuits as users build them (outputs that are inputs, inputs nobody reads, a gate that is two outputs,
+    constants): the topology is fixed, every gate *type* is symbolic; the Circuit answers are compared with the
+    definitions over the reference-semantics table of the same symbolic circuit."""
+    n, topo, out_idx, qsel = item
+    inputs = [f"x{i}" for i in range(n)]
+    nodes = list(inputs)
+    gates, sels, cands_all, cons = [], [], [], []
+    for j, ops in enumerate(topo):
+        cands = circgen.types_for_arity(len(ops)) + ([t for t in circgen.CONST] if len(ops) in (1, 2) else [])
+        sel = z3.Int(f"sel{j}")
+        cons.append(z3.And(sel >= 0, sel < len(cands)))
+        gates.append((f"g{j}", symeval.make_sym_gate_type(f"SYM{j}", cands, sel), tuple(nodes[o] for o in ops)))
+        sels.append(sel)
+        cands_all.append(cands)
+        nodes.append(f"g{j}")
+    outs = [nodes[i] for i in out_idx]
+    m = len(outs)
+
+    def ref_row(bits):
+        ER = {l: z3.BoolVal(b) for l, b in zip(inputs, bits)}
+        for (lab, _, ops), sel, cands in zip(gates, sels, cands_all):
+            term = z3.BoolVal(False)
+            for i, t in reversed(list(enumerate(cands))):
+                term = z3.If(sel == i, refsem.ref_op(t.name, [ER[o] for o in ops]), term)
+            ER[lab] = z3.simplify(term)
+        return ER
+
+    rows = [ref_row(bits_of(j, n)) for j in range(1 << n)]
+    T = [[rows[j][o] for j in range(1 << n)] for o in outs]
+    qs = queries(n, m)
+    if qsel is not None:
+        qs = [q for i, q in enumerate(qs) if i % qsel[1] == qsel[0]]
+    base = z3.And(*cons) if cons else z3.BoolVal(True)
+    for qname, call, spec in qs:
+        def body():
+            return call(circgen.build(inputs, gates, outs))
+
+        paths, stats = forkexec.explore(body, base=[base], max_paths=50000, catch=(Exception,))
+        p.case(("c12s", n, tuple(topo), tuple(out_idx), qname),
+               sample=f"Circuit.{qname} on topology inputs={n} operands={topo} outputs={outs} with symbolic gate types: {stats['paths']} paths" if len(p.samples) < 12 and qname.startswith("get_sig") else None)
+        p.count("paths", stats["paths"])
+        if stats["covered"]:
+            p.queries["unsat"] += 1
+        else:
+            p.error(f"coverage not proven for Circuit.{qname} on {topo}")
+        for path in paths:
+            if path.exc is not None:
+                wrong, what = z3.BoolVal(True), f"raised {type(path.exc).__name__}: {path.exc}"
+            else:
+                wrong, what = wrong_term(T, n, spec, path.result), f"answered {path.result if len(str(path.result)) < 80 else '...'}"
+            r, mod = p.check([base, path.cond(), wrong], label=f"struct {qname}")
+            if r == "sat":
+                chosen = [cands[mod.eval(sel, model_completion=True).as_long()] for sel, cands in zip(sels, cands_all)]
+                cc = circgen.build(inputs, [(g[0], t, g[2]) for g, t in zip(gates, chosen)], outs)
+                meth = qname.split("(")[0].split("[")[0]
+                p.violation(f"function:Circuit:{meth}:structure", f"Circuit.{qname} on {circ.describe(cc)} {what}, which is not the definition",
+                            REPLAY_PRELUDE + circ.circ_src(cc) + "\nfrom checks import c12\nimport z3\n"
+                            f"n={n}; m={m}; qname={qname!r}\n"
+                            "T=[[z3.BoolVal(v) for v in r] for r in c12.ref_table(c)]\n"
+                            "q=[q for q in c12.queries(n,m) if q[0]==qname][0]\n"
+                            "try:\n    res=q[1](c)\n    wrong=z3.is_true(z3.simplify(c12.wrong_term(T, n, q[2], res)))\nexcept Exception as e:\n    print(type(e).__name__, e); wrong=True\n"
+                            "print(qname, 'wrong' if wrong else 'right'); sys.exit(1 if wrong else 0)\n")
+                return
+
+
+def struct_items(thorough, rnd):
+    items = []
+    for n, ng in ((1, 1), (2, 1), (2, 2), (3, 1), (3, 2)):
+        topos = list(circgen.systematic_topologies(n, ng, (1, 2)))
+        if len(topos) > (40 if thorough else 10):
+            topos = rnd.sample(topos, 40 if thorough else 10)
+        for topo in topos:
+            last = n + ng - 1
+            used = {o for ops in topo for o in ops}
+            idle = [i for i in range(n) if i not in used]
+            choices = [[last], [last, 0], [idle[0]] if idle else [n - 1], [last, last]]
+            if idle:
+                choices.append([last, idle[-1]])
+            for oc in choices if thorough else rnd.sample(choices, 2) + ([choices[-1]] if idle else []):
+                k = 1 if n < 3 else 3
+                items += [(n, topo, tuple(oc), (i, k)) for i in range(k)]
+    return list(dict.fromkeys((a, tuple(map(tuple, b)), c, d) for a, b, c, d in items))
+
+
 # ---------------------------------------------------------------- model completion
 def completion_unit(p, item, tier, seed):
     n, m, mask = item  # mask: tuple of (k,j) don't-care positions
@@ -347,7 +446,27 @@ def completion_unit(p, item, tier, seed):
         [list(r) for r in pm.define(other).get_truth_table()]
         return [list(r) for r in pm.define(definition).get_truth_table()]
 
+    def tt_copy_body():
+        # the model went through copy.deepcopy (as it does when handed to another owner) before being completed
+        tm = TruthTableModel([["*" if (k, j) in D else False for j in range(rows)] for k in range(m)])
+        tm._table = model_table()
+        tm._table_t = [list(c) for c in zip(*tm._table)]
+        tm = copy.deepcopy(tm)
+        got = [[tm.check_at(bits_of(j, n), k) for j in range(rows)] for k in range(m)]
+        if any((got[k][j] == DontCare) != ((k, j) in D) for k in range(m) for j in range(rows)):
+            raise AssertionError("a copied model no longer reports its don't-care cells as DontCare")
+        f = PyFunctionModel(tm.check, input_size=n, output_size=m).define(definition)
+        return [list(r) for r in f.get_truth_table()]
+
+    def tt_copy_define_body():
+        tm = TruthTableModel([["*" if (k, j) in D else False for j in range(rows)] for k in range(m)])
+        tm._table = model_table()
+        tm._table_t = [list(c) for c in zip(*tm._table)]
+        f = copy.deepcopy(tm).define(definition)
+        return [list(r) for r in f.get_truth_table()]
+
     for name, body in (("TruthTableModel.define", tt_body), ("PyFunctionModel.define", py_body),
+                       ("deepcopy(TruthTableModel).define", tt_copy_define_body), ("PyFunctionModel(deepcopy(TruthTableModel).check).define", tt_copy_body),
                        ("PyFunctionModel.define(stored rows, twice)", py_shared_body), ("PyFunctionModel(TruthTableModel.check).define twice", tt_via_py_body)):
         paths, stats = forkexec.explore(body, max_paths=100000, catch=(Exception,))
         p.case(("define", name, n, m, mask), sample=f"{name} {m}x{rows} with don't-cares at {mask}: {stats['paths']} paths" if len(p.samples) < 8 else None)
@@ -372,7 +491,10 @@ def completion_unit(p, item, tier, seed):
                             "raw=[[DontCare if v=='*' else v for v in r] for r in table]\n"
                             f"name={name!r}\n"
                             "other={k: (not v) for k,v in definition.items()}\n"
+                            "import copy\n"
                             "try:\n    if name.startswith('TruthTable'): f=TruthTableModel(raw).define(definition)\n"
+                            "    elif name.startswith('deepcopy'): f=copy.deepcopy(TruthTableModel(raw)).define(definition)\n"
+                            "    elif 'deepcopy' in name:\n        tm=copy.deepcopy(TruthTableModel(raw)); assert all((tm.check_at(c12.bits_of(j,n),k)==DontCare)==(raw[k][j] is DontCare) for k in range(m) for j in range(1<<n)); f=PyFunctionModel(tm.check, input_size=n, output_size=m).define(definition)\n"
                             "    elif 'TruthTableModel.check' in name:\n        pm=PyFunctionModel(TruthTableModel(raw).check, input_size=n, output_size=m); pm.define(other).get_truth_table(); f=pm.define(definition)\n"
                             "    elif 'stored rows' in name:\n        rows_t=[list(c) for c in zip(*raw)]; pm=PyFunctionModel(lambda xs: rows_t[c12.idx_of(xs)], input_size=n, output_size=m); pm.define(other).get_truth_table(); f=pm.define(definition)\n"
                             "    else: f=PyFunctionModel(lambda xs: [raw[k][c12.idx_of(xs)] for k in range(m)], input_size=n, output_size=m).define(definition)\n"
@@ -383,7 +505,9 @@ def completion_unit(p, item, tier, seed):
 
 # ---------------------------------------------------------------- integer wrappers
 INT_FUNCS = {"id": (1, lambda a: a), "plus1": (1, lambda a: a + 1), "times3": (1, lambda a: a * 3), "add": (2, lambda a, b: a + b), "mul": (2, lambda a, b: a * b),
-             "absdiff": (2, lambda a, b: abs(a - b)), "a2b": (2, lambda a, b: 2 * a + b), "first": (2, lambda a, b: a), "monus": (2, lambda a, b: max(a - b, 0))}
+             "absdiff": (2, lambda a, b: abs(a - b)), "a2b": (2, lambda a, b: 2 * a + b), "first": (2, lambda a, b: a), "monus": (2, lambda a, b: max(a - b, 0)),
+             # results far beyond 2**53 (every bit of a wide result must still be exact)
+             "wide": (1, lambda a: a * ((1 << 60) + 1) + (1 << 57)), "cat60": (2, lambda a, b: (a << 60) + b + (1 << 54))}
 
 
 def int_unit(p, item, tier, seed):
@@ -401,7 +525,7 @@ def int_unit(p, item, tier, seed):
         p.queries["unsat"] += 1
     else:
         p.error("coverage not proven for integer wrapper")
-    W = 2 * ar * ilen + 4
+    W = 2 * ar * ilen + 4 + (70 if fname in ("wide", "cat60") else 0)
 
     def num(bits):
         bits = list(bits) if be else list(bits)[::-1]  # to MSB-first
@@ -411,11 +535,11 @@ def int_unit(p, item, tier, seed):
         return acc
 
     a = num(xs[:ilen])
-    val = {"id": lambda: a, "plus1": lambda: a + 1, "times3": lambda: a * 3}.get(fname, lambda: None)()
+    val = {"id": lambda: a, "plus1": lambda: a + 1, "times3": lambda: a * 3, "wide": lambda: a * ((1 << 60) + 1) + (1 << 57)}.get(fname, lambda: None)()
     if ar == 2:
         b = num(xs[ilen:])
         val = {"add": a + b, "mul": a * b, "absdiff": z3.If(z3.UGE(a, b), a - b, b - a), "a2b": 2 * a + b, "first": a,
-               "monus": z3.If(z3.UGE(a, b), a - b, z3.BitVecVal(0, W))}[fname]
+               "monus": z3.If(z3.UGE(a, b), a - b, z3.BitVecVal(0, W)), "cat60": a * (1 << 60) + b + (1 << 54)}[fname]
     fits = z3.ULT(val, z3.BitVecVal(1 << olen, W)) if olen < W else z3.BoolVal(True)
     for path in paths:
         if path.exc is not None:
@@ -496,6 +620,8 @@ def run(rep, tier, seed, only=None):
                 k = 1 if (n, m) in ((1, 1), (2, 1), (1, 2)) else (6 if (n, m) != (3, 2) else 16)
                 items += [(n, m, rname, (i, k)) for i in range(k)]
         rep.pmap(shape_unit, items)
+    if sub("struct"):
+        rep.pmap(struct_unit, struct_items(thorough, random.Random(seed + 5)))
     if sub("define"):
         rnd = random.Random(seed)
         items = []
@@ -508,7 +634,7 @@ def run(rep, tier, seed, only=None):
         items = []
         for fname, (ar, _) in INT_FUNCS.items():
             for ilen in ((1, 2, 3) if ar == 1 else (1, 2)):
-                for olen in (ilen, ilen + 1, 2 * ilen + 1):
+                for olen in ((ilen, ilen + 1, 2 * ilen + 1) if fname not in ("wide", "cat60") else (54, 64, 60 + ilen + 3)):
                     for be in (False, True):
                         items.append((fname, ilen, olen, be))
         rep.pmap(int_unit, items)
